@@ -39,6 +39,8 @@ class Verifier(Engine):
         # closure variables of nested functions
         for a, ty in c.params.items():
             if a not in st.env:
+                if a in self.local_names and c.nested_in is None:
+                    raise GenerationError(f"{c.qualname}: ghost parameter '{a}' clashes with a local variable")
                 st.env[a] = self._declare_param(a, ty)
         self.initial.env = dict(st.env)
         # requires
@@ -484,6 +486,9 @@ class Verifier(Engine):
             return how(self, st, node, args, kwargs)
         if how == "inline":
             raise GenerationError(f"inline call of {txt} inside an expression")
+        ghost_bind = {}
+        if isinstance(how, tuple):
+            how, ghost_bind = how
         callee: Contract = self.registry.get(how) if isinstance(how, str) else how
         recv_path = None
         if isinstance(node.func, ast.Attribute) and callee.receiver_cls:
@@ -491,7 +496,8 @@ class Verifier(Engine):
             if not isinstance(recv, ObjV):
                 raise GenerationError(f"receiver of {txt} is not an object path")
             recv_path = recv.path
-        return self.apply_contract(callee, txt, recv_path, st, args, kwargs)
+        ghosts = {g: self.eval(ast.parse(e, mode="eval").body, st, True) for g, e in ghost_bind.items()}
+        return self.apply_contract(callee, txt, recv_path, st, args, kwargs, ghosts)
 
     def _callee_env(self, callee: Contract, recv_path, st, args, kwargs):
         env = {}
@@ -530,10 +536,12 @@ class Verifier(Engine):
             return tuple(recv_path) + parts[1:]
         return parts
 
-    def apply_contract(self, callee: Contract, txt: str, recv_path, st: State, args, kwargs) -> Val:
+    def apply_contract(self, callee: Contract, txt: str, recv_path, st: State, args, kwargs, ghosts=None) -> Val:
         if st.guards and callee.modifies:
             raise GenerationError(f"heap-modifying call {txt} under a short-circuit guard")
         env = self._callee_env(callee, recv_path, st, args, kwargs)
+        for g, v in (ghosts or {}).items():
+            env[g] = coerce(self, v, callee.params[g]) if g in callee.params else v
         for p, ty in callee.fields.items():
             self.field_types.setdefault(self._translate(callee, recv_path, p), ty)
         caller_env = st.env
@@ -691,6 +699,8 @@ class Verifier(Engine):
             elif isinstance(n, ast.Call):
                 txt = ast.unparse(n.func)
                 how = self.c.calls.get(txt)
+                if isinstance(how, tuple):
+                    how = how[0]
                 if isinstance(how, FrameCall):
                     for p in how.modifies:
                         paths.add(tuple(p.split(".")))
@@ -731,6 +741,9 @@ class Verifier(Engine):
             if isinstance(root, ast.Name) and rtxt in names:
                 raise GenerationError(f"loop #{k} mutates its own iterable {rtxt}")
         tag = f"{c.prop}/{c.short}/loop{k}"
+        for g, (gty, ginit, gstep) in spec.ghost.items():
+            st.env[g] = coerce(self, self.eval(ast.parse(ginit, mode="eval").body, st, True), gty)
+            names.add(g)
 
         def inv_terms(s: State, idx: Term | None):
             if idx is not None:
@@ -788,6 +801,8 @@ class Verifier(Engine):
         body_st.trace.append(f"loop{k} body")
         for kind, s2, v in self.exec_block(node.body, body_st):
             if kind in ("normal", "continue"):
+                for g, (gty, ginit, gstep) in spec.ghost.items():
+                    s2.env[g] = coerce(self, self.eval(ast.parse(gstep, mode="eval").body, s2, True), gty)
                 nidx = Add(idx, IntVal(1)) if is_for else None
                 for name, t in inv_terms(s2, nidx):
                     self.oblige(f"{tag}.inv_step.{name}", s2, t, self.func.where(node))
